@@ -93,7 +93,7 @@ def run(tier, seed):
             rep.exclude('%s: probe timed out' % name)
             continue
         for j in range(len(nps) - 1):      # interrupt right after evaluation j+1
-            for mode in ('continue', 'save-restore', 'continue-tol0', 'continue-container', 'single-step-chain', 'continue-same-limits'):
+            for mode in ('continue', 'save-restore', 'continue-tol0', 'continue-container', 'single-step-chain', 'continue-same-limits', 'continue-after-reevaluation'):
                 lims = {'tol': -1.0, 'min': 1, 'max': (nps[j] - 1) if j > 0 else 0}
                 if mode == 'continue-tol0':
                     # first phase stopped by a positive tolerance, continued with tolerance 0 (never met) and the final budget
@@ -146,7 +146,7 @@ def run(tier, seed):
                                                                         print_output=False, refinement_container=S['combi'].refinement, single_step=True)
                         events = []
                         restored_same = True
-                    elif mode in ('continue', 'continue-tol0', 'continue-container'):
+                    elif mode in ('continue', 'continue-tol0', 'continue-container', 'continue-after-reevaluation'):
                         S, rec, ret = DP.run_once(c, lims, checks=False)
                         events = rec.events + [DP.ret_event(S, rec, ret, c, lims, with_c05=False)]
                         restored_same = True
@@ -174,8 +174,12 @@ def run(tier, seed):
                             and sch2 == stb['scheme'] and int(combi2.get_total_num_points()) == stb['points']
                     events.append({'k': 'Resume', 'minE': 1, 'maxE': int(final_lims['max'])})
                     cont_tol = 0 if mode == 'continue-tol0' else -1.0
-                    if mode in ('continue', 'continue-tol0', 'continue-container'):
+                    if mode in ('continue', 'continue-tol0', 'continue-container', 'continue-after-reevaluation'):
                         rec.tol = cont_tol
+                    if mode == 'continue-after-reevaluation':
+                        # between stop and continuation the caller asks for the combination re-evaluated from scratch (a read-only request)
+                        with impl.quiet(), impl.watchdog(240):
+                            S['combi'].evaluate_final_combi()
                     with impl.quiet(), impl.watchdog(240):
                         if mode == 'single-step-chain':
                             ret2 = ret
